@@ -998,10 +998,12 @@ UcLd(w, u, d) ==
   /\ \E t \in D : At(w, t, "us0") /\ th[t].pc.x = u
         /\ th' = (IF d = 0 THEN th ELSE SetPc(t, P("us1", u, 0, d)))
   /\ UNCHANGED <<cur, got, cb, runq, ledger, tg, bad, sv>>
-UcClr(w, u) ==
+\* v = what the slot holds right after the clearing store (the event is emitted after it)
+UcClr(w, u, v) ==
   /\ \E t \in D : At(w, t, "us1") /\ th[t].pc.x = u /\ th' = SetPc(t, [th[t].pc EXCEPT !.k = "us2"])
   /\ ob' = ObSet("uc", u, 0)
-  /\ UNCHANGED <<cur, got, cb, runq, ledger, tg, bad, mx, sq, gh>>
+  /\ bad' = IF v # 0 THEN Fail("C08: the slot of the uncondition variable still names a thread after signal cleared it") ELSE bad
+  /\ UNCHANGED <<cur, got, cb, runq, ledger, tg, mx, sq, gh>>
 \* signal returns only after the waiter has been handed back to the scheduler
 UUcSignalRet(w, tag, u) ==
   /\ \E t \in D : At(w, t, "us9") /\ th[t].tag = tag /\ th[t].pc.x = u /\ th' = SetPc(t, User)
